@@ -11,7 +11,7 @@ from protolib import hexs
 
 PROPS = "Props/Properties_C13.v"
 PATS = [b"abc", b"bc", b"ab", b"ca"]
-REPORT_ABANDONED = False   # see FINDING in run(): set to True to make the abandoned-scan contamination fail the check
+REPORT_ABANDONED = True    # contamination or a leak after an abandoned scan is a violation (fixed in /repo by 8a2210d)
 
 
 class Rules:
@@ -319,26 +319,86 @@ def run(chk):
             chk.violation("entry-model", "entry points agree with each other but not with the model on %d bytes: impl=%s model=%s"
                           % (len(buf), ref, mfinal), replay)
 
-    # ------------------------------------------------------------ exploration (outside the proved statements)
-    # (a) a scan given up after ERROR_BLOCK_NOT_READY, then the same scanner used for another buffer
-    r1 = mk([("C", 0, 1)])
-    cmds = r1.commands() + ["blocks 6 0:616263 3:616263", "notready 01", "piter", "pscan", "script -", "scan 6162",
-                            "scanner 1", "sel 1", "scan 6162"]
-    o, _ = vlib.run_cases(h, [("abandon", cmds)])
-    sl = [protolib.parse_scan(l) for l in o["abandon"] if l.startswith("scan msgs=")]
-    obs = {"abandoned_scan": None}
-    if len(sl) == 3 and sl[0][1] == 61:
+    # ------------------------------------------------------------ part 3: abandoned scans (scan_after_abandoned_equals_fresh)
+    # a call returns ERROR_BLOCK_NOT_READY, the caller gives up and uses the same scanner for another buffer (new
+    # iterator, or yr_scanner_scan_mem): result must be that of a new scanner - and of the model
+    obs = {}
+    acases, amodel, ameta = [], [], []
+    ag = rng.fork()
+    scen = [(mk([("C", 0, 1)]), [(0, b"abc", 3), (3, b"abc", 3)], "01", b"ab")]
+    for _ in range(12 if quick else 80):
+        atoms = [ag.choice([("S", ag.below(4)), ("C", ag.below(4), ag.below(3)), ("Z", ag.range(0, 6)), ("U", ag.below(6), ag.choice([97, 98, 99])), ("T",)])
+                 for _ in range(ag.range(1, 4))]
+        buf = bytes(ag.choice(b"abc") for _ in range(ag.range(2, 8)))
+        cut = sorted(set(ag.range(1, len(buf) - 1) for _ in range(ag.range(1, 3)))) if len(buf) > 2 else [1]
+        bounds = [0] + cut + [len(buf)]
+        blocks = [(bounds[i], buf[bounds[i]:bounds[i + 1]], bounds[i + 1] - bounds[i]) for i in range(len(bounds) - 1)]
+        k = ag.range(0, len(blocks))          # the call that is not ready
+        scen.append((mk(atoms, [(int(ag.chance(1, 6)), 0, 0) for _ in atoms]), blocks, "0" * k + "1",
+                     bytes(ag.choice(b"abc") for _ in range(ag.range(0, 5)))))
+    for si, (rules, blocks, p, nbuf) in enumerate(scen):
+        fszv = sum(sz for _, _, sz in blocks)
+        cmds = rules.commands() + ["blocks %d %s" % (fszv, " ".join("%d:%s" % (b, vlib.hx(d)) for b, d, _ in blocks)),
+                                   "notready " + p, "piter", "pscan", "script -", "scan " + vlib.hx(nbuf),
+                                   "scanner 1", "sel 1", "scan " + vlib.hx(nbuf)]
+        acases.append(("a%d" % si, cmds))
+        amodel.append("c13abandon current %s %s %d %s %s %s" % (PATHEX, rules.model(), fszv,
+                      ",".join("%d:%s" % (b, d.hex()) for b, d, _ in blocks), p, vlib.hx(nbuf)))
+        ameta.append((rules, blocks, p, nbuf, cmds))
+    aout, _ = vlib.run_cases(h, acases)
+    alines, _ = vlib.run_lines(model, amodel)
+    n_aband = 0
+    for (cid, cmds), ml, (rules, blocks, p, nbuf, _) in zip(acases, alines, ameta):
+        sl = [protolib.parse_scan(l) for l in aout.get(cid, []) if l.startswith("scan msgs=")]
+        replay = {"rules": rules.describe(), "blocks": [(b, vlib.hx(d), sz) for b, d, sz in blocks], "notready_pattern": p,
+                  "next_buffer_hex": vlib.hx(nbuf), "harness_commands": cmds, "model_command": amodel[acases.index((cid, cmds))], "model": ml,
+                  "impl": [l for l in aout.get(cid, []) if l.startswith("scan msgs=") or l.startswith("crash")]}
+        if len(sl) != 3 or sl[0][1] != 61 or any(l.startswith("crash") for l in aout.get(cid, [])):
+            chk.violation("abandoned-setup", "abandoned-scan scenario did not run as planned: %s" % replay["impl"], replay, found_input=False)
+            continue
+        n_aband += 1
         reused, fresh = sl[1][0], sl[2][0]
-        obs["abandoned_scan"] = {"reused_scanner": str(reused), "fresh_scanner": str(fresh), "contaminated": reused != fresh,
-                                 "commands": cmds,
-                                 "what": "rule '#s == 1' ($s = \"abc\"): blocks 'abc','abc', second block not ready, caller gives up; "
-                                         "same scanner then scans 'ab': the stale match at offset 0 is still there and the rule matches"}
-        if reused != fresh:
-            print("FINDING-CANDIDATE: property=C13/C10 a scan abandoned after ERROR_BLOCK_NOT_READY contaminates the scanner's next scan "
-                  "(model: scanner_reuse_after_abandoned_scan_refuted); reused=%s fresh=%s" % (reused, fresh))
+        if cid == "a0":
+            obs["abandoned_scan"] = {"reused_scanner": str(reused), "fresh_scanner": str(fresh), "contaminated": reused != fresh, "commands": cmds}
+        if reused != fresh or sl[1][1] != sl[2][1]:
             if REPORT_ABANDONED:
-                chk.violation("abandoned-not-ready-scan", "a scanner that gave up a scan after ERROR_BLOCK_NOT_READY reports stale matches "
-                              "in its next scan: %s vs fresh %s" % (reused, fresh), {"harness_commands": cmds})
+                chk.violation("abandoned-not-ready-scan", "a scanner that gave up a scan after ERROR_BLOCK_NOT_READY does not scan like a new "
+                              "scanner: reused=%s rc=%d, new scanner=%s rc=%d" % (reused, sl[1][1], fresh, sl[2][1]), replay)
+            continue
+        # and the model agrees (variant 'current')
+        m = {}
+        if " reused " in ml and " | fresh " in ml:
+            a, b = ml.split(" reused ")[1].split(" | fresh ")
+            m = {"reused": a, "fresh": b}
+        def canon(msgs):
+            out = []
+            for x in msgs:
+                out.append("%s%d" % (x[0], [r["name"] for r in rules.rules].index(x[2])) if x[0] in "MN" else x[0])
+            return "".join(t + ";" for t in out)
+        if not m or m["reused"] != m["fresh"] or not m["reused"].startswith("msgs=" + canon(reused) + " "):
+            chk.violation("abandoned-model", "abandoned-scan scenario: implementation and model (current code) differ: impl=%s model=%s"
+                          % (canon(reused), ml), replay)
+    # the notebook of the abandoned scan must be released by the next scan and by yr_scanner_destroy (LeakSanitizer);
+    # quick tier: only when the ASan build of this tree is already cached
+    asan_cached = os.path.exists(os.path.join(build.CACHE, "%s-asan" % build.tree_hash(), "libyara.a"))
+    if not quick or asan_cached:
+        ha = build.harness("h_proto", "asan", extra_flags=protolib.hscan_flag())
+        r1 = scen[0][0]
+        end = ["sdestroy", "destroyrules", "destroycompiler"]
+        pre = r1.commands() + ["blocks 6 0:616263 3:616263", "notready 01", "piter"]
+        lcases = [("completed", pre + ["ploop 5"] + end), ("abandoned_destroy", pre + ["pscan"] + end),
+                  ("abandoned_rescan_destroy", pre + ["pscan", "scan 6162"] + end)]
+        o, _ = vlib.run_cases(ha, lcases)
+        obs["abandoned_scan_leakcheck"] = {k: [l for l in o.get(k, []) if l.startswith("leakcheck") or l.startswith("crash")] for k, _ in lcases}
+        for k, cmds in lcases:
+            if obs["abandoned_scan_leakcheck"][k] != ["leakcheck 0"]:
+                key = "abandoned-not-ready-scan" if k != "completed" else "leak-completed-scan"
+                chk.violation(key, "memory is leaked (or the run crashed) in scenario '%s': %s" % (k, obs["abandoned_scan_leakcheck"][k]),
+                              {"harness_commands": cmds, "variant": "asan", "how": "h_proto built with -fsanitize=address; leakcheck N = LeakSanitizer found N leaks"})
+    else:
+        obs["abandoned_scan_leakcheck"] = "skipped in the quick tier: no cached ASan build of this tree (runs in the thorough tier)"
+
+    # ------------------------------------------------------------ exploration (outside the proved statements)
     # (b) an iterator whose first() rewinds before it knows whether it is ready: the retry (which calls next()) skips block 0
     r2 = mk([("C", 0, 2)])
     base = r2.commands() + ["blocks 6 0:616263 3:616263", "notready 1"]
@@ -348,16 +408,9 @@ def run(chk):
         "position_keeping": str(fin["keep"]), "rewinding": str(fin["naive"]), "first_block_lost": fin["keep"][1] != fin["naive"][1],
         "what": "capi.rst does not say that after a not-ready first() the scanner continues with next(); an iterator that "
                 "sets its position in first() before the readiness test loses block 0 on the retry"}
-    # (c) thorough tier: the abandoned scan also leaks the notebook (yr_scanner_destroy does not free matches_notebook)
-    if not quick:
-        ha = build.harness("h_proto", "asan", extra_flags=protolib.hscan_flag())
-        end = ["sdestroy", "destroyrules", "destroycompiler"]
-        pre = r1.commands() + ["blocks 6 0:616263 3:616263", "notready 01", "piter"]
-        o, _ = vlib.run_cases(ha, [("completed", pre + ["ploop 5"] + end), ("abandoned", pre + ["pscan"] + end)])
-        obs["abandoned_scan_leak"] = {k: [l for l in o[k] if l.startswith("leakcheck")] for k in o}
-    chk.note(evaluations=n_runs + n_entry, distinct_nontrivial=len([d for d in distinct if "1" in d[2]]),
-             traces_validated_against_impl=n_runs + n_entry, interrupted_runs=n_interrupted, conforming_patterns=n_conf,
-             patterns_outside_contract=n_nonconf, follow_up_scans=n_follow, entry_point_scans=n_entry, observations=obs,
+    chk.note(evaluations=n_runs + n_entry + n_aband, distinct_nontrivial=len([d for d in distinct if "1" in d[2]]),
+             traces_validated_against_impl=n_runs + n_entry + n_aband, interrupted_runs=n_interrupted, conforming_patterns=n_conf,
+             patterns_outside_contract=n_nonconf, follow_up_scans=n_follow, entry_point_scans=n_entry, abandoned_scan_scenarios=n_aband, observations=obs,
              rule="one evaluation = one complete run (all calls until the scan completes) or one entry-point scan; distinct = different "
                   "(buffer, block partition incl. null-data blocks, file_size known?, not-ready pattern); non-trivial = at least one "
                   "not-ready answer")
